@@ -151,7 +151,7 @@ func loadProgram(repo string) (*Program, error) {
 		if fn.Pkg == nil || !strings.HasPrefix(fn.Pkg.Pkg.Path(), modPath) {
 			continue
 		}
-		if fn.Synthetic != "" {
+		if fn.Synthetic != "" && fn.Synthetic != "package initializer" {
 			continue
 		}
 		p.Funcs[keyOfFunction(fn)] = fn
